@@ -107,6 +107,7 @@ func TestMain(m *testing.M) {
 	}
 	repo := engine.Repo()
 	metrics, _ := os.ReadFile(filepath.Join(repo, "proxy/metrics.yaml"))
+	defaultMetrics = string(metrics)
 	os.WriteFile(filepath.Join(root, "metrics_default.yaml"), metrics, 0o644)
 	env := map[string]string{
 		"LUNAR_STREAMS_ENABLED":              "true",
@@ -273,6 +274,8 @@ type initialConfig struct {
 	// further configuration files by path relative to the configuration root, possibly in sub-directories
 	// (e.g. path_params/team-a/params.yaml, which the path-parameter loader reads recursively)
 	Other map[string]string `json:"other,omitempty"`
+	// a user metrics file exists (otherwise the gateway reads its built-in default file)
+	UserMetrics bool `json:"user_metrics_file,omitempty"`
 }
 
 func cleanDir(dir string) {
@@ -298,6 +301,11 @@ func writeInitial(c initialConfig) {
 		os.MkdirAll(filepath.Dir(filepath.Join(root, rel)), 0o755)
 		os.WriteFile(filepath.Join(root, rel), []byte(t), 0o644)
 	}
+	// the gateway's built-in default metrics file is part of the configuration on disk: always in its original state
+	os.WriteFile(filepath.Join(root, "metrics_default.yaml"), []byte(defaultMetrics), 0o644)
+	if c.UserMetrics {
+		os.WriteFile(filepath.Join(root, "metrics_user.yaml"), []byte(defaultMetrics+"\n# user file\n"), 0o644)
+	}
 }
 
 // diskFingerprint covers the configuration files an update addresses (flows, quotas, gateway and metrics config).
@@ -314,7 +322,7 @@ func diskFingerprint() map[string]string {
 			return nil
 		})
 	}
-	for _, f := range []string{"gateway_config.yaml", "metrics_user.yaml"} {
+	for _, f := range []string{"gateway_config.yaml", "metrics_user.yaml", "metrics_default.yaml"} {
 		if b, err := os.ReadFile(filepath.Join(root, f)); err == nil {
 			h := sha256.Sum256(b)
 			out[f] = hex.EncodeToString(h[:8])
@@ -339,6 +347,9 @@ func fpString(m map[string]string) string {
 // ---- probing the running configuration through the SPOE handler ---------------------------------------
 
 var probeSeq atomic.Int64
+
+// defaultMetrics is the text of the repository's proxy/metrics.yaml (the gateway's built-in metrics configuration)
+var defaultMetrics string
 
 // probe sends one request for url through routing.Handler and returns the body of the early response ("" = passed through).
 func probe(url string) (marker string, err error) {
@@ -435,6 +446,8 @@ type tcase struct {
 	Quotas   []payloadFile `json:"payload_quotas,omitempty"`
 	Params   []payloadFile `json:"payload_path_params,omitempty"`
 	NoFlows  bool          `json:"payload_without_flows,omitempty"`
+	Metrics  string        `json:"payload_metrics,omitempty"` // "" | valid | changed | not-yaml | wrong-shape | undecodable
+	UserMet  bool          `json:"initial_user_metrics_file,omitempty"`
 	FaultOp  string        `json:"fault_op,omitempty"` // fs.store | fs.remove | fs.walk | proxy
 	FaultAt  int           `json:"fault_at,omitempty"` // 1-based index of the failing call
 	InFlight bool          `json:"probe_during_switch,omitempty"`
@@ -504,6 +517,21 @@ func genCase() *rapid.Generator[tcase] {
 			}
 			c.Quotas = append(c.Quotas, q)
 		}
+		// the payload may also carry the metrics configuration (reloaded after the new stream is published);
+		// the gateway may or may not already have a user metrics file
+		switch rapid.IntRange(0, 11).Draw(t, "metrics") {
+		case 0, 1:
+			c.Metrics = "valid"
+		case 2:
+			c.Metrics = "changed"
+		case 3:
+			c.Metrics = "not-yaml"
+		case 4:
+			c.Metrics = "wrong-shape"
+		case 5:
+			c.Metrics = "undecodable"
+		}
+		c.UserMet = rapid.IntRange(0, 2).Draw(t, "usermetrics") == 0
 		faultKind := rapid.IntRange(0, 5).Draw(t, "fault")
 		if c.badPayload() {
 			faultKind = 0 // one failure per update: a rejected payload is not combined with an injected fault
@@ -519,6 +547,7 @@ func genCase() *rapid.Generator[tcase] {
 			c.FaultOp, c.FaultAt = "proxy", rapid.IntRange(1, 6).Draw(t, "at")
 		}
 		c.InFlight = rapid.IntRange(0, 2).Draw(t, "inflight") == 1
+		c.Initial.UserMetrics = c.UserMet
 		return c
 	})
 }
@@ -550,11 +579,36 @@ func (c tcase) body() []byte {
 		}
 		p["path_params"] = q
 	}
+	if m := c.metricsText(); m != "" {
+		p["metrics"] = base64.StdEncoding.EncodeToString([]byte(m))
+		if c.Metrics == "undecodable" {
+			p["metrics"] = "!!!not-base64!!!"
+		}
+	}
 	b, _ := json.Marshal(p)
 	return b
 }
 
+func (c tcase) metricsText() string {
+	switch c.Metrics {
+	case "valid":
+		return defaultMetrics
+	case "changed":
+		return defaultMetrics + "\n# pushed by the update\n"
+	case "not-yaml":
+		return "general_metrics: [unclosed\n  label_value: : :\n"
+	case "wrong-shape":
+		return "general_metrics: 17\napi_call_metrics: just a string\n"
+	case "undecodable":
+		return "x"
+	}
+	return ""
+}
+
 func (c tcase) badPayload() bool {
+	if c.Metrics == "not-yaml" || c.Metrics == "wrong-shape" || c.Metrics == "undecodable" {
+		return true
+	}
 	for _, f := range append(append([]payloadFile{}, c.Flows...), c.Quotas...) {
 		if f.Bad {
 			return true
@@ -825,4 +879,37 @@ func TestFaultEnumeration(t *testing.T) {
 	}
 	r.SetExhaustive(true)
 	r.Note(fmt.Sprintf("every single-fault plan of the fixed payloads: %d cases", total))
+}
+
+// TestRegressionFixedDefects replays the minimal cases of the defects that were repaired in /repo (see
+// known_findings.json, "fixed"); it fails if one of them returns.
+func TestRegressionFixedDefects(t *testing.T) {
+	if setupErr != nil {
+		fmt.Println("VERIF-INFRA: manager setup failed:", setupErr)
+		t.Fatalf("%v", setupErr)
+	}
+	r := ev.New(t, "C08")
+	f0 := map[string]string{"f0.yaml": flowYAML("f0", "h.com/f0", "m0")}
+	cases := []tcase{
+		// 2d3f376: a rejected metrics entry overwrote the gateway's built-in default metrics file
+		{Initial: initialConfig{Flows: f0}, Endpoint: "/configuration", Metrics: "not-yaml"},
+		{Initial: initialConfig{Flows: f0}, Endpoint: "/apply_flows", Metrics: "wrong-shape",
+			Flows: []payloadFile{{Name: "f1.yaml", Text: flowYAML("f1", "h.com/f1", "m1-1")}}},
+		// a1efb6b / 6e11adc: an added quota file stayed on disk after a rejected update
+		{Initial: initialConfig{Flows: f0}, Endpoint: "/configuration",
+			Quotas: []payloadFile{{Name: "q.yaml", Bad: true, Text: "quotas:\n  - id: Q2\n    strategy:\n      fixed_window:\n        max: 0\n"}}},
+		{Initial: initialConfig{Flows: f0}, Endpoint: "/apply_flows",
+			Flows: []payloadFile{{Name: "f1.yaml", Bad: true, Text: cyclicFlow}}},
+	}
+	for i, c := range cases {
+		r.Case()
+		_, obs, err := runCase(r, c)
+		if err != nil {
+			if _, infra := err.(infraErr); infra {
+				fmt.Println(err.Error())
+			}
+			t.Fatalf("%s", r.Fail(map[string]any{"case": c, "observed": obs}, "regression case %d: %v", i, err))
+		}
+		r.NonTrivial(ev.JSON(c), func() any { return map[string]any{"case": c, "observed": obs} })
+	}
 }
